@@ -77,8 +77,7 @@ theorem sel_spec {β : Type} (f : β → β → β) (R : β → β → Prop) (ke
 first/last; ties exactly as `minMeta` / `maxMeta` / `firstMeta` / `lastMeta` break them. -/
 def RMin (p q : Int × Int) : Prop := p.1 < q.1 ∨ (p.1 = q.1 ∧ p.2 ≤ q.2)
 def RMax (p q : Int × Int) : Prop := q.1 < p.1 ∨ (p.1 = q.1 ∧ p.2 ≤ q.2)
-def RFirst (ty : ColType) (p q : Int × Int) : Prop :=
-  p.1 < q.1 ∨ (p.1 = q.1 ∧ (if ty = .bool then p.2 ≤ q.2 else q.2 ≤ p.2))
+def RFirst (_ty : ColType) (p q : Int × Int) : Prop := p.1 < q.1 ∨ (p.1 = q.1 ∧ q.2 ≤ p.2)
 def RLast (p q : Int × Int) : Prop := q.1 < p.1 ∨ (p.1 = q.1 ∧ q.2 ≤ p.2)
 
 def keyVT (r : Row) : Option (Int × Int) := r.v.map (fun v => (v, r.t))
@@ -96,7 +95,7 @@ theorem single_last_key (r : Row) : (Stats.single r).last = keyTV r := by
 theorem pickMin_choice (a b : Int × Int) : pickMin a b = a ∨ pickMin a b = b := by unfold pickMin; split <;> simp
 theorem pickMax_choice (a b : Int × Int) : pickMax a b = a ∨ pickMax a b = b := by unfold pickMax; split <;> simp
 theorem pickFirst_choice (a b : Int × Int) : pickFirst ty a b = a ∨ pickFirst ty a b = b := by
-  unfold pickFirst; by_cases h : ty = .bool <;> simp only [h, if_true, if_false] <;> split <;> simp
+  unfold pickFirst; split <;> simp
 theorem pickLast_choice (a b : Int × Int) : pickLast a b = a ∨ pickLast a b = b := by unfold pickLast; split <;> simp
 
 theorem mergeOf_min_spec (l : List Row) :
@@ -117,8 +116,8 @@ theorem mergeOf_first_spec (l : List Row) :
     SelSpec (RFirst ty) keyTV l (mergeOf ty l).first :=
   sel_spec (pickFirst ty) (RFirst ty) keyTV (fun l => (mergeOf ty l).first) rfl
     (fun r l => by rw [mergeOf_cons, ← single_first_key]; rfl) (pickFirst_choice ty)
-    (fun a b => by unfold pickFirst RFirst; split <;> grind) (fun a => by unfold RFirst; split <;> grind)
-    (fun a b c => by unfold RFirst; split <;> grind) l
+    (fun a b => by unfold pickFirst RFirst; grind) (fun a => by unfold RFirst; grind)
+    (fun a b c => by unfold RFirst; grind) l
 
 theorem mergeOf_last_spec (l : List Row) :
     SelSpec RLast keyTV l (mergeOf ty l).last :=
